@@ -279,6 +279,41 @@ def encodeExtIn (p : ExtInParts) : Outcome Cell :=
   else if r.length > 4 then .err "refs overflow"
   else .ok (Cell.ordinary b r)
 
+/-! ### all three kinds -/
+
+/-- CommonMsgInfo as the schema writes it (an internal message with extra currencies would carry the dictionary
+in a reference: not encoded here, `InfoWF` requires `hasExtra = false`) -/
+def encodeInfo : Info → List Bool
+  | .int ihrDisabled bounce bounced src dest grams _ ihrFee fwdFee lt at_ =>
+    [false, ihrDisabled, bounce, bounced] ++ encodeAddr src ++ encodeAddr dest ++ encodeVarUInt16 grams ++ [false] ++
+      encodeVarUInt16 ihrFee ++ encodeVarUInt16 fwdFee ++ natToBits 64 lt ++ natToBits 32 at_
+  | .extIn src dest fee => [true, false] ++ encodeAddr src ++ encodeAddr dest ++ encodeVarUInt16 fee
+  | .extOut src dest lt at_ => [true, true] ++ encodeAddr src ++ encodeAddr dest ++ natToBits 64 lt ++ natToBits 32 at_
+
+/-- all the parts of a message of any kind -/
+structure MsgParts where
+  info : Info
+  init : InitForm Cell
+  bodyForm : BodyForm
+  body : Cell
+
+def MsgParts.bodyValue (p : MsgParts) : Cell := Cell.ordinary p.body.bits p.body.refs
+
+/-- tlb.Marshal of the message (info, init, body), without the capacity check -/
+def encodeMsgRaw (p : MsgParts) : List Bool × List Cell :=
+  let (ib, ir) := encodeInit p.init
+  match p.bodyForm with
+  | .inline => (encodeInfo p.info ++ ib ++ [false] ++ p.body.bits, ir ++ p.body.refs)
+  | .ref => (encodeInfo p.info ++ ib ++ [true], ir ++ [p.body])
+
+def encodeMsg (p : MsgParts) : Outcome Cell :=
+  let (b, r) := encodeMsgRaw p
+  if b.length > 1023 then .err "bits overflow"
+  else if r.length > 4 then .err "refs overflow"
+  else .ok (Cell.ordinary b r)
+
+def ExtInParts.toMsgParts (p : ExtInParts) : MsgParts := ⟨.extIn p.src p.dest p.importFee, p.init, p.bodyForm, p.body⟩
+
 /-- the canonical form of an external-in message: no source, standard destination without anycast, no import fee,
 no init, body in a reference -/
 def canonicalParts (dest : MsgAddr) (body : Cell) : ExtInParts :=
